@@ -103,8 +103,11 @@ def run(repo: Repo, tier: str) -> Report:
         rep.ob("NB-TYPES", k.file, k.name, f"signature ({', '.join(f['args'])}) passes type inference", True, "",
                f"{k.name}({', '.join(f['args'])})", line=k.node.lineno, kind=f["origin"])
 
-    from ..rules import nb_layout
+    from ..rules import nb_layout, prange_rule
     nb_layout(rep, kernels)
+    # parallel=True compiles the prange loop for concurrent execution: the compiled kernel computes what the (sequential) source says only if
+    # the iterations do not share written state
+    prange_rule(rep, kernels, "NB-PRANGE")
     # ---- NB-FLAGS: compile options that change floating-point or error semantics relative to the interpreter
     SAFE = {"nopython": {"True"}, "nogil": {"True", "False"}, "cache": {"True", "False"}, "parallel": {"True", "False"}}
     for k in kernels.values():
